@@ -6,6 +6,7 @@ mod c02;
 mod c03;
 mod c04;
 mod c10;
+mod c14;
 mod c17;
 mod c18;
 mod c20;
@@ -25,6 +26,7 @@ fn main() {
         "c03" => c03::main(&args),
         "c04" => c04::main(&args),
         "c10" => c10::main(&args),
+        "c14" => c14::main(&args),
         "c17" => c17::main(&args),
         "c02" => c02::main(&args),
         "c18" => c18::main(&args),
